@@ -60,6 +60,9 @@ pub struct AgentSim {
     pub remote: Option<SocketAddr>,
     /// the driver owns the clock (scenario `agent`); false when an event queue does (`world`)
     pub owns_clock: bool,
+    pub scale: bool,
+    pub huge: bool,
+    pub big_requests: bool,
     grams: [u8; 2],
 }
 
@@ -74,8 +77,26 @@ pub fn panic_violation(prop: &str, r: &Reply, what: &str) -> Option<Violation> {
 impl AgentSim {
     pub fn new(ctx: &mut Ctx, tcp: bool) -> Self {
         let thorough = ctx.cfg.thorough;
-        let npool = ctx.ch.range(3, 6) as usize;
-        let pool = gen_addr_pool(ctx.ch, npool);
+        // one run in 25 is a *scale* run: many peers, many concurrent transactions, a long history,
+        // a clock that starts far from zero (thresholds of small-size optimisations, counters and
+        // millisecond arithmetic are where a long-lived agent differs from a fresh one)
+        let scale = ctx.ch.rare(1, 25);
+        if scale {
+            ctx.st.inc("probe.scale_run");
+        }
+        let huge = scale && ctx.ch.rare(1, 8);
+        let npool = if scale { ctx.ch.range(12, 48) } else { ctx.ch.range(3, 6) } as usize;
+        let mut pool = gen_addr_pool(ctx.ch, npool);
+        if huge {
+            // hundreds of peers (a server-side agent): systematic addresses on top of the drawn ones
+            ctx.st.inc("probe.huge_peer_pool");
+            let n = ctx.ch.range(230, 330);
+            for i in 0..n {
+                pool.push(SocketAddr::new(std::net::IpAddr::V4(std::net::Ipv4Addr::new(10, 1, (i / 250) as u8, (i % 250) as u8 + 1)), 20000 + (i % 7) as u16));
+            }
+        }
+        // knob: an application whose requests are big (2-5 KB), in one run of twenty
+        let big_requests = ctx.ch.rare(1, 20);
         let local = SocketAddr::new(std::net::IpAddr::V4(std::net::Ipv4Addr::new(10, 0, 0, 1)), 40000);
         let local_creds = gen_creds(ctx.ch);
         let peer_creds = gen_other_creds(ctx.ch, &local_creds);
@@ -83,7 +104,10 @@ impl AgentSim {
         if same_hmac_key(&other_creds, &local_creds) || same_hmac_key(&other_creds, &peer_creds) {
             other_creds = Creds::Short("attacker-key".into());
         }
-        let max_live = ctx.ch.range(1, if thorough { 8 } else { 4 }) as usize;
+        let max_live = if scale && ctx.ch.rare(1, 10) { ctx.ch.range(250, 320) } else if scale { ctx.ch.range(9, 40) } else { ctx.ch.range(1, if thorough { 8 } else { 4 }) } as usize;
+        // simulated clock at the start of the history: 0 in most runs, else a large offset
+        // (2^32 ms = 49.7 days, 2^53 ns = 104 days, 10^9 s = 31 years)
+        let start = if ctx.ch.rare(1, 6) { *ctx.ch.pick(&[1u64, 4_294_967_296 * MS - 250 * MS, 1u64 << 53, 1_000_000_000 * SEC, 86_400 * SEC]) } else { 0 };
         // knob: the builder's optional remote address (some member of the pool, so that it differs
         // from most destinations); no property lets it influence any transmission
         let remote = if ctx.ch.rare(1, 3) { Some(*ctx.ch.pick(&pool)) } else { None };
@@ -97,7 +121,10 @@ impl AgentSim {
                 m
             },
             base: anchor(),
-            now: 0,
+            now: start,
+            scale,
+            huge,
+            big_requests,
             pool,
             history: Vec::with_capacity(128),
             local_creds,
@@ -186,7 +213,13 @@ impl AgentSim {
 
     pub fn gen_request(&mut self, ctx: &mut Ctx, tid: u128, sign_bias: u32) -> MsgSpec {
         let big = if ctx.ch.rare(1, 40) { 60000 } else { 0 };
-        let attrs = gen_attrs(ctx.ch, &self.pool, &SpecOpts { max_attrs: 3, big });
+        let mut attrs = gen_attrs(ctx.ch, &self.pool[..self.pool.len().min(8)], &SpecOpts { max_attrs: 3, big });
+        if self.big_requests && big == 0 && ctx.ch.coin() {
+            let l = *ctx.ch.pick(&[2040usize, 2048, 2100, 3000, 4096, 5000]) + ctx.ch.below(4) as usize;
+            attrs.retain(|a| !matches!(a, TAttr::Raw(0x7f02, _)));
+            attrs.push(TAttr::Raw(0x7f02, ctx.ch.bytes(l)));
+            ctx.st.inc("probe.request_of_2KB_or_more");
+        }
         // sealing variant: 0 none, 1 FP, 2 SHA1, 3 SHA256, 4 SHA1+FP, 5 SHA256+FP, 6 both, 7 both+FP
         let w = [6u32, 2, sign_bias, sign_bias, sign_bias / 2 + 1, sign_bias / 2 + 1, sign_bias / 2 + 1, sign_bias / 2 + 1];
         let variant = ctx.ch.weighted(&w) as u64;
@@ -340,7 +373,7 @@ impl AgentSim {
     pub fn op_poll(&mut self, ctx: &mut Ctx) -> ScResult {
         let t = self.poll_target();
         // class: 0 exact, 1 early, 2 1ns early, 3 1ns late, 4 late, 5 very late, 6 same instant, 7 tiny step, 8 huge jump
-        let class = ctx.ch.weighted(&[10, 5, 3, 3, 5, 3, 3, 2, 1]) as u8;
+        let class = ctx.ch.weighted(&[10, 5, 3, 3, 5, 3, 3, 2, 1, 1]) as u8;
         let at = match class {
             0 => t,
             1 => {
@@ -356,6 +389,19 @@ impl AgentSim {
             5 => t + ctx.ch.range(10, 100) * SEC,
             6 => self.now,
             7 => self.now + ctx.ch.range(1, 1000),
+            9 => {
+                // late by a power of two of some time unit (plus a little): where elapsed time kept
+                // in 32 bits of ns / us / ms, or 53 bits of ns, wraps or loses precision
+                let b = *ctx.ch.pick(&[1u64 << 31, 1u64 << 32, (1u64 << 32) * 1000, (1u64 << 31) * MS, (1u64 << 32) * MS, (1u64 << 33) * MS, 1u64 << 53]);
+                let d = match ctx.ch.below(4) {
+                    0 => 0,
+                    1 => ctx.ch.range(1, 400) * MS,
+                    2 => ctx.ch.range(1, 999),
+                    _ => ctx.ch.range(1, 30) * SEC,
+                };
+                ctx.st.inc("probe.poll_late_by_power_of_two");
+                t + b + d
+            }
             _ => t + ctx.ch.range(1, 3) * 3600 * SEC,
         }
         .max(self.now);
@@ -365,7 +411,7 @@ impl AgentSim {
                 ctx.st.inc("fault.poll_late");
                 self.faults += 1
             }
-            5 | 8 => {
+            5 | 8 | 9 => {
                 ctx.st.inc("fault.stall_or_clock_jump");
                 self.faults += 1
             }
@@ -463,11 +509,13 @@ impl AgentSim {
                 let mut m = RefMsg::new(class, method, tid);
                 let rc = self.peer_creds.reference();
                 let l = *ctx.ch.pick(&[16usize, 20, 24, 28]);
-                m.items.push(RefItem::Mac256 { creds: rc, len: l, flip: None });
+                // one time in three the truncated MAC is corrupted, anywhere including its last bytes
+                let flip = if ctx.ch.rare(1, 3) { Some((if ctx.ch.coin() { l - 1 - ctx.ch.below(4) as usize } else { ctx.ch.below(l as u64) as usize }, 1u8 << ctx.ch.below(8))) } else { None };
+                m.items.push(RefItem::Mac256 { creds: rc, len: l, flip });
                 if ctx.ch.coin() {
                     m.items.push(RefItem::Fp { flip: None });
                 }
-                (m.encode(), "truncated_sha256_valid")
+                (m.encode(), if flip.is_some() { "truncated_sha256_corrupted" } else { "truncated_sha256_valid" })
             }
             8 => {
                 // foreign peer / attacker: an integrity attribute whose length is not a legal one
@@ -594,7 +642,71 @@ impl AgentSim {
         Ok(())
     }
 
+    /// An attacker (or a broken peer) floods one outstanding authenticated transaction with 20..300
+    /// responses that must all be dropped; nothing about the transaction may change however many
+    /// there are (checked by the model after each, and by the timing clauses afterwards).
+    pub fn op_flood(&mut self, ctx: &mut Ctx, kind_w: &[u32; 10]) -> ScResult {
+        let live: Vec<(u128, SocketAddr)> = self.model.live().filter(|t| t.signed && !t.rc).map(|t| (t.tid, t.dest)).collect();
+        if live.is_empty() {
+            return Ok(());
+        }
+        let (tid, dest) = *ctx.ch.pick(&live);
+        let n = *ctx.ch.pick(&[20u64, 64, 100, 101, 128, 256, 300]);
+        ctx.st.inc("fault.forged_response_flood");
+        self.faults += 1;
+        let mut w = *kind_w;
+        w[0] = 0; // never the genuine one
+        w[7] = 0; // nor the valid truncated one
+        for i in 0..n {
+            let (b, label) = self.gen_response(ctx, tid, 1, true, &w);
+            if label == "truncated_sha256_valid" || label == "genuine_signed" {
+                continue;
+            }
+            // a valid response under the *current* remote credentials is not a forgery: skip it
+            if let (Some(rc), Verdict::Accept(view)) = (&self.model.remote, refcodec::decode(&b)) {
+                let st = refcodec::integrity_status(&b, &view, &rc.reference());
+                if st.iter().any(|x| x.2) {
+                    continue;
+                }
+            }
+            let from = if ctx.ch.rare(1, 8) { *ctx.ch.pick(&self.pool) } else { dest };
+            let r = self.call(ctx, Call::Handle { bytes: b.clone(), from })?;
+            let now = self.now;
+            if let Err(v) = self.model.on_handle(now, &b, from, &r, &mut ctx.st) {
+                return Err(self.fail(ctx, v));
+            }
+            if i % 16 == 15 || i + 1 == n {
+                self.invariants(ctx)?;
+            }
+            if self.model.live_idx(tid).is_none() {
+                break;
+            }
+        }
+        self.gram(ctx, 0x6f);
+        Ok(())
+    }
+
     pub fn op_incoming(&mut self, ctx: &mut Ctx) -> ScResult {
+        if self.huge && ctx.ch.rare(1, 3) {
+            // a burst of requests from many distinct peers (what a server-side agent sees)
+            let n = ctx.ch.range(40, 300) as usize;
+            let start = ctx.ch.below(self.pool.len() as u64) as usize;
+            ctx.st.inc("op.incoming_burst_from_many_peers");
+            for i in 0..n {
+                let from = self.pool[(start + i) % self.pool.len()];
+                let bytes = MsgSpec { class: ctx.ch.below(2) as u8, method: 1, tid: gen_tid(ctx.ch), attrs: vec![], seals: vec![] }.build();
+                let r = self.call(ctx, Call::Handle { bytes: bytes.clone(), from })?;
+                let now = self.now;
+                if let Err(v) = self.model.on_handle(now, &bytes, from, &r, &mut ctx.st) {
+                    return Err(self.fail(ctx, v));
+                }
+                if i % 64 == 63 {
+                    self.invariants(ctx)?;
+                }
+            }
+            self.gram(ctx, 0x72);
+            return Ok(());
+        }
         let class = ctx.ch.below(2) as u8;
         let live: Vec<u128> = self.model.live().map(|t| t.tid).collect();
         let tid = if !live.is_empty() && ctx.ch.rare(1, 3) {
@@ -785,7 +897,7 @@ pub fn scenario(ctx: &mut Ctx) -> ScResult {
     }
     let lc = s.local_creds.clone();
     s.call(ctx, Call::SetLocal(lc))?;
-    let n_ops = ctx.ch.range(5, if thorough { 200 } else { 70 });
+    let n_ops = if s.scale { ctx.ch.range(100, if thorough { 1200 } else { 400 }) } else { ctx.ch.range(5, if thorough { 200 } else { 70 }) };
     for _ in 0..n_ops {
         let op = OPS[ctx.ch.weighted(&w)];
         match op {
@@ -808,7 +920,11 @@ pub fn scenario(ctx: &mut Ctx) -> ScResult {
                 s.invariants(ctx)?;
             }
             Op::Respond => {
-                s.op_respond(ctx, &kw)?;
+                if ctx.ch.rare(1, if profile == "forgery" { 25 } else { 120 }) {
+                    s.op_flood(ctx, &kw)?;
+                } else {
+                    s.op_respond(ctx, &kw)?;
+                }
                 s.invariants(ctx)?;
             }
             Op::Incoming => {
